@@ -195,6 +195,15 @@ class Env:
             for x in t["ord"]:
                 r = r.orderby(self.term(x))
                 siblings(r)
+            if t.get("frame"):
+                def bound(b):
+                    if b[0] == "C":
+                        return an.CURRENT_ROW
+                    cls = an.Preceding if b[0] == "P" else an.Following
+                    return cls() if b[1] < 0 else cls(b[1])
+                fr = t["frame"]
+                args = [bound(fr["lo"])] + ([bound(fr["hi"])] if fr["hi"] else [])
+                r = (r.rows if fr["unit"] == "ROWS" else r.range)(*args)
         elif k == "ext":
             r = EXT[t["cls"]](self)
         elif k == "vext":
